@@ -133,6 +133,14 @@ class FwdCase:
                              {"solver": v.backend, "answer": v.status})
                         return
 
+    def on_crash(self, why):
+        """the symbolic run killed the interpreter: decide on floats against the reference semantics"""
+        rep = self._native()
+        if rep.get("reproduced"):
+            return {"failure": {"obligation": "%s.result_value" % self.name, "what": "symbolic run crashed (%s); natively the call gives %s, the reference semantics %s"
+                                % (why, str(rep.get("actual", rep.get("native_call")))[:200], str(rep.get("expected", rep.get("reference")))[:200]), "reproduced": True, "replay": rep}}
+        return {"native": rep}
+
     def _native(self):
         """replay natively on float64: the real call vs the reference semantics evaluated on the same numbers"""
         from synapgrad.tensor import Tensor
